@@ -201,13 +201,21 @@ def reference(ck, sc, tier, limit=None):
     an atom or a weight of the widgets these programs use is a disagreement there."""
     import c03
     limit = limit or (8 if tier == "quick" else 24)
-    seen = {}
+    # per component: the program with the median width / pair count first (a zero-width
+    # instance emits no row of the widget and shows nothing), then the widest, then others
+    groups = {}
     for s in sc:
-        if s["expect"]["res"] == "ok" and "prove_ops" not in s and s["g"] not in seen:
-            seen[s["g"]] = s
-    # a second program per component where available (different parameters)
-    more = [s for s in sc if s["expect"]["res"] == "ok" and "prove_ops" not in s and s not in seen.values()]
-    progs = list(seen.values()) + more[:max(0, limit - len(seen))]
+        if s["expect"]["res"] == "ok" and "prove_ops" not in s:
+            groups.setdefault(s["g"], []).append(s)
+    first, second, more = [], [], []
+    for g, lst in groups.items():
+        lst = sorted(lst, key=lambda s: s.get("n", 0) if isinstance(s.get("n", 0), int) else 0)
+        first.append(lst[len(lst) // 2])
+        if lst[-1] is not lst[len(lst) // 2]:
+            second.append(lst[-1])
+        more.extend(x for x in lst if x is not lst[len(lst) // 2] and x is not lst[-1])
+    progs = first + second[:max(0, limit - len(first))]
+    progs = progs + more[:max(0, limit - len(progs))]
     progs = [{"id": str(s["id"]), "ops": s["ops"]} for s in progs[:limit]]
     if not progs:
         return None
